@@ -4,12 +4,16 @@
 (* detector, not from here; this module guards against VACUOUS workloads.  *)
 (* One line of obs.ndjson = one program as harness/cmd/racex ran it:        *)
 (*   procs    the operation kinds of every process                          *)
+(*   inst, on the number of instances of every type and the instance each   *)
+(*            process worked on                                             *)
 (*   planned  per process: iterations * number of operations                *)
 (*   done     per process: operations that ran to their end                 *)
 (*   problem  non-empty when the program could not be run to the end        *)
 (* A program counts only if every process completed all of its operations   *)
 (* in every iteration and, by the table of RaceOps.tla, two different       *)
 (* processes then had operations on one shared object, one of them writing  *)
+(* (programs with several instances: two processes on different instances   *)
+(* of one type, which share only the package-level defaults)                *)
 (* (the processes are released together and never synchronised by the       *)
 (* harness).  A line failing this makes the check INCONCLUSIVE, never a     *)
 (* violation and never a pass.                                              *)
@@ -22,18 +26,21 @@ Obs == ndJsonDeserialize("obs.ndjson")
 If(b, name) == IF b THEN {} ELSE {name}
 Fails(t) ==
   If(t.problem = "", "program-not-run-to-the-end")
-  \cup If(\A p \in 1..Len(t.procs) : \A j \in 1..Len(t.procs[p]) : t.procs[p][j] \in Kinds, "unknown-operation-kind")
+  \cup If(KnownKinds(t.procs), "unknown-operation-kind")
   \cup If(Len(t.done) = Len(t.procs) /\ \A p \in 1..Len(t.procs) : t.done[p] = t.planned[p] /\ t.planned[p] = t.iters * Len(t.procs[p]),
           "operations-not-completed")
   \cup If(Len(t.procs) >= 2 /\ t.iters >= 1, "fewer-than-two-processes")
-  \cup If((\A p \in 1..Len(t.procs) : \A j \in 1..Len(t.procs[p]) : t.procs[p][j] \in Kinds) => ConflictPair(t.procs),
-          "no-concurrent-conflicting-pair-on-one-object")
+  \cup If(KnownKinds(t.procs) => NonVacuous(t.procs, t.on, t.inst),
+          IF t.inst = 1 THEN "no-concurrent-conflicting-pair-on-one-object"
+          ELSE "no-two-processes-on-different-instances-of-one-type")
 
 BadLines == { k \in 1..Len(Obs) : Fails(Obs[k]) # {} }
 TraceInit == c = 0
 TraceNext == UNCHANGED c
 EmitBad == \A k \in BadLines : PrintT("BAD " \o ToJson([line |-> k, fails |-> Fails(Obs[k])]))
 \* which access disciplines of RaceModel.tla the programs exercised
-EmitCov == PrintT("COVER " \o ToJson(UNION { DisciplinesAll(Obs[k].procs) : k \in { j \in 1..Len(Obs) : Fails(Obs[j]) = {} } }))
+Good == { j \in 1..Len(Obs) : Fails(Obs[j]) = {} }
+EmitCov == PrintT("COVER " \o ToJson(UNION { DisciplinesAll(Obs[k].procs) : k \in Good }))
+           /\ PrintT("MULTI " \o ToString(Cardinality({ k \in Good : Obs[k].inst > 1 })))
 TraceChecked == EmitBad /\ EmitCov /\ PrintT("CHECKED " \o ToString(Len(Obs)))
 =============================================================================
